@@ -12,7 +12,8 @@ import XlVerif.Spec.C13
   and always
     `spec0= spec=`   evaluation of every focused address on the original model before / after the sets
     `closure=`       `Spec.C13.closureN` of the focus in the dependency graph, `sat=1` when it is saturated
-    `wf= focusok= guard=`   hygiene of the model, "no focused address is a range key", guard of D1301
+    `wf= focusok= guard=`   hygiene of the model, "no focused address is a range key", "no defined name is
+                             used inside the closure" (statistics only)
   results are joined by blanks.
 -/
 namespace XlVerif.Drv.C13
